@@ -572,9 +572,17 @@ func (rn *Runner) Step(in Input) (err error) {
 		rn.Sink.Emit(Event{"ev": "msgbegin", "s": in.S, "m": in.M.toEvent(), "sendfail": in.SendFail})
 		s.stream.in <- req
 		ended, rpcErr, hang := rn.waitQuiet(s)
+		blocked := []string{}
+		for i := 0; hang && i < 6; i++ {
+			// slow is not hung: a hang needs a goroutine parked inside the package
+			if blocked = ribdrv.BlockedIn("openconfig/gribigo"); len(blocked) > 0 {
+				break
+			}
+			ended, rpcErr, hang = rn.waitQuiet(s)
+		}
 		if hang {
 			rn.Hangs++
-			rn.Sink.Emit(Event{"ev": "hang", "at": "msg", "s": in.S, "blocked": ribdrv.BlockedIn("openconfig/gribigo")})
+			rn.Sink.Emit(Event{"ev": "hang", "at": "msg", "s": in.S, "blocked": blocked})
 			rn.dead = true
 			return nil
 		}
@@ -664,13 +672,12 @@ func (rn *Runner) Step(in Input) (err error) {
 			ce = errors.New("rpc error: transport failure")
 		}
 		s.stream.close(ce)
-		select {
-		case e := <-s.done:
+		if e, ok, blocked := ribdrv.AwaitOrHang(s.done, waitLimit, "openconfig/gribigo"); ok {
 			s.ended = true
 			rn.emitState(Event{"ev": "close", "s": in.S, "mode": in.Mode, "end": absEnd(e)})
-		case <-time.After(waitLimit):
+		} else {
 			rn.Hangs++
-			rn.Sink.Emit(Event{"ev": "hang", "at": "close", "s": in.S})
+			rn.Sink.Emit(Event{"ev": "hang", "at": "close", "s": in.S, "blocked": blocked})
 			rn.dead = true
 		}
 	case "flushrpc":
@@ -700,16 +707,15 @@ func (rn *Runner) Step(in Input) (err error) {
 			r, err := rn.srv.Flush(context.Background(), fr)
 			ch <- fres{r, err}
 		}()
-		select {
-		case x := <-ch:
+		if x, ok, blocked := ribdrv.AwaitOrHang(ch, waitLimit, "openconfig/gribigo"); ok {
 			ev := Event{"ev": "flushrpc", "r": in.R, "end": absEnd(x.err)}
 			if x.err == nil && x.r.GetResult() != spb.FlushResponse_OK {
 				ev["end"] = map[string]any{"code": "OK", "reason": x.r.GetResult().String()}
 			}
 			rn.emitState(ev)
-		case <-time.After(waitLimit):
+		} else {
 			rn.Hangs++
-			rn.Sink.Emit(Event{"ev": "hang", "at": "flushrpc", "blocked": ribdrv.BlockedIn("openconfig/gribigo")})
+			rn.Sink.Emit(Event{"ev": "hang", "at": "flushrpc", "blocked": blocked})
 			rn.dead = true
 		}
 	case "get":
@@ -757,8 +763,11 @@ func (rn *Runner) doGet(in Input) {
 	}
 	ch := make(chan error, 1)
 	go func() { ch <- rn.srv.Get(gr, gs) }()
-	select {
-	case err := <-ch:
+	limit := waitLimit
+	if gs.stall > 0 {
+		limit += gs.stall
+	}
+	if err, finished, blocked := ribdrv.AwaitOrHang(ch, limit, "openconfig/gribigo"); finished {
 		if gs.stalled {
 			if !in.Stall {
 				rn.StallsLeft--
@@ -808,9 +817,9 @@ func (rn *Runner) doGet(in Input) {
 			}
 		}
 		rn.Sink.Emit(ev)
-	case <-time.After(waitLimit):
+	} else {
 		rn.Hangs++
-		rn.Sink.Emit(Event{"ev": "hang", "at": "get", "blocked": ribdrv.BlockedIn("openconfig/gribigo")})
+		rn.Sink.Emit(Event{"ev": "hang", "at": "get", "blocked": blocked})
 		rn.dead = true
 	}
 }
